@@ -186,9 +186,9 @@ Theorem C09_quadratic_whole_spline_is_an_increasing_bijection :
      exists x l, quadratic_spline Rops minw minh true bx uw uh y = Ok (x, l) /\ (b_left bx <= x <= b_right bx) /\ QF minw minh bx uw uh x = y).
 Proof.
   intros minw minh bx uw uh H1 H2 H3 H4 H5 H6 H7 H8.
-  destruct (quadratic_whole minw minh bx uw uh H1 H2 H3 H4 H5 H6 H7 H8) as [A [B C]].
+  destruct (quadratic_whole minw minh bx uw uh H1 (or_introl H2) H3 H4 H5 H6 H7 H8) as [A [B C]].
   split; [exact A|]. split; [exact B|]. split; [exact C|].
-  intros y Hy. destruct (quadratic_forward_of_inverse minw minh bx uw uh H1 H2 H3 H4 H5 H6 H7 H8 y Hy) as [x [l [E [Hx [Hf _]]]]].
+  intros y Hy. destruct (quadratic_forward_of_inverse minw minh bx uw uh H1 (or_introl H2) H3 H4 H5 H6 H7 H8 y Hy) as [x [l [E [Hx [Hf _]]]]].
   exists x, l. split; [exact E|]. split; [exact Hx | exact Hf].
 Qed.
 Print Assumptions C09_quadratic_whole_spline_is_an_increasing_bijection.
@@ -250,4 +250,37 @@ Theorem C09_cubic_whole_spline_forward_is_increasing_onto_its_range :
   (forall a b, b_left bx <= a -> a < b -> b <= b_right bx -> CF minw minh eps thr bx uw uh ul ur a < CF minw minh eps thr bx uw uh ul ur b).
 Proof. intros minw minh eps thr bx uw uh ul ur H1 H2 H3 H4 H5 H6 H7 H8. apply cubic_whole; assumption. Qed.
 Print Assumptions C09_cubic_whole_spline_forward_is_increasing_onto_its_range.
+
+(* ---- the UNCONSTRAINED piecewise-linear and piecewise-quadratic splines (linear tails): identity outside [-B, B], the whole-spline
+   bijection inside, meeting at +-B: strictly increasing maps of the whole real line that take every value.  The quadratic form
+   is the one the tails wrapper builds (K - 1 unnormalised heights, boundary heights computed by the code); it needs two bins. ---- *)
+From NF Require Import Proofs.SplineLinearTails Proofs.SplineQuadTails.
+Theorem C09_linear_unconstrained_is_an_increasing_bijection_of_the_line : forall (B : R) (u : list R), 0 < B -> u <> [] ->
+  (UL B u (- B) = - B /\ UL B u B = B) /\ (forall a b, a < b -> UL B u a < UL B u b) /\ (forall y, exists x, UL B u x = y).
+Proof.
+  intros B u HB Hne. split; [apply lin_tails_meet; assumption|].
+  split; [intros a b; apply lin_unconstrained_increasing; assumption | intros y; apply lin_unconstrained_onto; assumption].
+Qed.
+Print Assumptions C09_linear_unconstrained_is_an_increasing_bijection_of_the_line.
+
+Theorem C09_quadratic_unconstrained_is_an_increasing_bijection_of_the_line :
+  forall (minw minh B : R) (uw uh : list R), 0 < B -> uw <> [] -> (2 <= length uw)%nat -> length uh = (length uw - 1)%nat ->
+  0 <= minw -> minw * INR (length uw) <= 1 -> 0 <= minh -> minh * INR (length uw) <= 1 ->
+  (UQ minw minh B uw uh (- B) = - B /\ UQ minw minh B uw uh B = B) /\
+  (forall a b, a < b -> UQ minw minh B uw uh a < UQ minw minh B uw uh b) /\ (forall y, exists x, UQ minw minh B uw uh x = y).
+Proof.
+  intros minw minh B uw uh HB H1 H2 H3 H4 H5 H6 H7. split; [apply quad_tails_meet; assumption|].
+  split; [intros a b; apply quad_unconstrained_increasing; assumption | intros y; apply quad_unconstrained_onto; assumption].
+Qed.
+Print Assumptions C09_quadratic_unconstrained_is_an_increasing_bijection_of_the_line.
+
+(* the unconstrained cubic spline, forward direction: the tails meet the spline at +-B and the map is strictly increasing on the line *)
+From NF Require Import Proofs.SplineCubicTails.
+Theorem C09_cubic_unconstrained_forward_is_increasing_on_the_line :
+  forall (minw minh eps thr B : R) (uw uh : list R) (ul ur : R), 0 < B -> uw <> [] -> length uh = length uw ->
+  0 <= minw -> minw * INR (length uw) <= 1 -> 0 <= minh -> minh * INR (length uw) <= 1 ->
+  (UC minw minh eps thr B uw uh ul ur (- B) = - B /\ UC minw minh eps thr B uw uh ul ur B = B) /\
+  (forall a b, a < b -> UC minw minh eps thr B uw uh ul ur a < UC minw minh eps thr B uw uh ul ur b).
+Proof. intros. apply cub_tails_meet_and_increase; assumption. Qed.
+Print Assumptions C09_cubic_unconstrained_forward_is_increasing_on_the_line.
 
